@@ -539,6 +539,45 @@ def q_b8(x: fp.Real) -> fp.Real:
         y = x * 1 + 0
     return y
 
+
+@fp.fpy
+def widen(x: fp.Real) -> tuple[fp.Real, fp.Real]:
+    # rounding a parameter as it is, under formats that hold it exactly: the number passed in (which may
+    # carry flags from whatever produced it) is not the function's to touch
+    with fp.FP64:
+        y = fp.round(x)
+    with MP40:
+        z = fp.round(x)
+    return (y, z)
+
+
+CHURN_N = 300
+
+
+def _mk_churn(k):
+    @fp.fpy
+    def one(x: fp.Real) -> fp.Real:
+        return x + k
+    return one
+
+
+@fp.fpy_primitive
+def churn(x: fp.Real, ctx: fp.Context) -> fp.Real:
+    # a primitive whose Python body defines and evaluates a few hundred small functions through the
+    # default interpreter while its caller's evaluation is still in flight
+    acc = x
+    for i in range(CHURN_N):
+        acc = _mk_churn(i % 7)(x, ctx=ctx)
+    return acc
+
+
+@fp.fpy
+def slow_churn(x: fp.Real) -> fp.Real:
+    with fp.FP32:
+        y = x + 1
+        z = churn(y)
+    return y * 2 + z
+
 # ---- derivations by user rewrite rules (expression rewrites keep the statement: no statement edit) ----
 
 @fp.pattern
@@ -582,6 +621,8 @@ def muladd16(a: fp.Real, b: fp.Real, c: fp.Real) -> tuple[fp.Real, fp.Real]:
 
 
 SIG = {
+    'widen': ['num'],
+    'slow_churn': ['num'],
     'q_a16': ['num'],
     'q_b8': ['num'],
     'fill': ['bit', 'bit', 'num'],
@@ -663,12 +704,12 @@ RETURNS_LISTS = ['ret_literal', 'ret_nested_literal', 'ret_table', 'ret_callee',
 
 # everything that takes or returns containers
 BOUNDARY = RETURNS_LISTS + ['deep', 'mut_list', 'share_call', 'dot', 'sum_enum', 'use_pass_list', 'poly', 'trans',
-                            'narrow', 'narrow_neg', 'narrow_all', 'ident', 'fill', 'tally', 'litrow']
+                            'narrow', 'narrow_neg', 'narrow_all', 'ident', 'fill', 'tally', 'litrow', 'widen']
 
 # functions whose value under one context may meet what was kept from another: the context ladder
 LADDER = ['tenth', 'consts', 'circle', 'muladd', 'extremes', 'helper_noctx']
 
-SPECIAL = ['fill', 'tally', 'litrow', 'circle', 'consts', 'muladd', 'muladd16', 'pinned32', 'narrow', 'extremes', 'tenth', 'use_table', 'uses_closure', 'deep', 'ret_param', 'via_prim', 'calls_failing',
+SPECIAL = ['widen', 'slow_churn', 'fill', 'tally', 'litrow', 'circle', 'consts', 'muladd', 'muladd16', 'pinned32', 'narrow', 'extremes', 'tenth', 'use_table', 'uses_closure', 'deep', 'ret_param', 'via_prim', 'calls_failing',
            'calls', 'pinned_rtz16', 'narrow_neg', 'tenth16', 'use_pass_list', 'shadowing', 'ident_pair', 'ret_pair',
            'via_picky', 'asserting', 'cap_num', 'calls_pinned', 'narrow_all', 'tenth32', 'mut_list', 'nested_lists',
            'share_call', 'indexer', 'exact_or_fail', 'trans', 'directed', 'ident', 'slices',
